@@ -176,6 +176,17 @@ class BasicRestartingNonMPI(BasicRestarting):
 on...",
                     S,
                 )
+        elif S is MS[0] and not self.params.restart_from_first_step:
+            # The earlier steps of this block finished in a previous iteration and are no longer visited, but the
+            # buffers are reset after every iteration: recover what they decided, like the MPI version remembers what
+            # it last received.
+            prev = S.prev
+            while True:
+                self.buffers.restart = self.buffers.restart or prev.status.restart
+                if prev.status.first:
+                    break
+                prev = prev.prev
+            self.buffers.max_restart_reached = prev.status.restarts_in_a_row >= self.params.max_restarts
 
         self.buffers.restart = S.status.restart or self.buffers.restart
         S.status.restart = (S.status.restart or self.buffers.restart) and not self.buffers.max_restart_reached
